@@ -21,12 +21,17 @@
 #include "core/eval_expression.h"
 #include "table/webasm.h"
 
+// Set when the operand could not be evaluated in pass 1 (forward reference).
+static bool is_unknown;
+
 static int get_uint(
   AsmContext *asm_context,
   uint64_t *value,
   int as_bin)
 {
   Var var;
+
+  is_unknown = false;
 
   if (eval_expression(asm_context, var) == -1)
   {
@@ -39,6 +44,7 @@ static int get_uint(
     ignore_operand(asm_context);
 
     *value = 0;
+    is_unknown = true;
   }
     else
   {
@@ -53,6 +59,38 @@ static int get_uint(
   }
 
   return 0;
+}
+
+// A LEB128 operand is as long as its value needs.  When pass 1 doesn't
+// know the value yet it reserves the longest form (5 bytes for 32 bits)
+// and leaves a note in the first byte so that pass 2 pads the real value
+// to the same length: otherwise every label after a forward reference
+// would move between the passes.
+static int add_var(AsmContext *asm_context, uint64_t value, bool is_signed)
+{
+  const uint32_t start = asm_context->address;
+  int fixed_size = 0;
+
+  if (asm_context->pass == 1)
+  {
+    if (is_unknown) { fixed_size = 5; }
+  }
+    else
+  if (asm_context->memory_read(start) == 1)
+  {
+    fixed_size = 5;
+  }
+
+  const int length = is_signed ?
+    add_bin_varint(asm_context, value, fixed_size) :
+    add_bin_varuint(asm_context, value, fixed_size);
+
+  if (asm_context->pass == 1)
+  {
+    asm_context->memory_write(start, fixed_size == 5 ? 1 : 0, asm_context->tokens.line);
+  }
+
+  return length;
 }
 
 static int get_type(const char *token)
@@ -128,7 +166,7 @@ int parse_instruction_webasm(AsmContext *asm_context, char *instr)
         if (get_uint(asm_context, &value, 0) != 0) { return -1; }
 
         add_bin8(asm_context, table_webasm[n].opcode, IS_OPCODE);
-        length = add_bin_varuint(asm_context, value, 0);
+        length = add_var(asm_context, value, false);
 
         length += 1;
         break;
@@ -144,7 +182,7 @@ int parse_instruction_webasm(AsmContext *asm_context, char *instr)
         }
 
         add_bin8(asm_context, table_webasm[n].opcode, IS_OPCODE);
-        length = add_bin_varint(asm_context, value & 0xffffffff, 0);
+        length = add_var(asm_context, value & 0xffffffff, true);
 
         length += 1;
         break;
@@ -160,7 +198,7 @@ int parse_instruction_webasm(AsmContext *asm_context, char *instr)
         }
 
         add_bin8(asm_context, table_webasm[n].opcode, IS_OPCODE);
-        length = add_bin_varuint(asm_context, value, 0);
+        length = add_var(asm_context, value, false);
 
         length += 1;
         break;
@@ -199,7 +237,7 @@ int parse_instruction_webasm(AsmContext *asm_context, char *instr)
         }
 
         add_bin8(asm_context, table_webasm[n].opcode, IS_OPCODE);
-        length = add_bin_varint(asm_context, value & 0xffffffff, 0);
+        length = add_var(asm_context, value & 0xffffffff, true);
 
         length += 1;
         break;
@@ -207,7 +245,7 @@ int parse_instruction_webasm(AsmContext *asm_context, char *instr)
         if (get_uint(asm_context, &value, 0) != 0) { return -1; }
 
         add_bin8(asm_context, table_webasm[n].opcode, IS_OPCODE);
-        length = add_bin_varint(asm_context, value & 0xffffffff, 0);
+        length = add_var(asm_context, value & 0xffffffff, true);
 
         count = value;
 
@@ -215,7 +253,7 @@ int parse_instruction_webasm(AsmContext *asm_context, char *instr)
         {
           if (expect_token(asm_context, ',') == -1)  { return -1; }
           if (get_uint(asm_context, &value, 0) != 0) { return -1; }
-          length += add_bin_varint(asm_context, value & 0xffffffff, 0);
+          length += add_var(asm_context, value & 0xffffffff, true);
         }
 
         token_type = tokens_get(asm_context, token, TOKENLEN);
